@@ -1,11 +1,11 @@
 import OZ.Drv.C20Util
-import OZ.Model.RegTopics
+import OZ.Model.RegTopicsMon
 /-
 `topics ...` sub-driver of C20: the claim-topics-and-issuers registry.
 Universe: topics 0..nt-1, issuers 0..ni-1; `has_claim_topic` is probed for topics 0..ht-1.
 -/
 namespace OZ.Drv.C20.Topics
-open OZ.Drv OZ.Drv.C20 OZ.RegTopics
+open OZ.Drv OZ.Drv.C20 OZ.RegTopics OZ.RegTopics.Mon
 
 structure M where
   s : State
@@ -16,8 +16,6 @@ structure M where
 def initM (ws : List String) : M :=
   let nt := (kvNat? ws "nt").getD 4
   { s := init, nt := nt, ni := (kvNat? ws "ni").getD 4, ht := (kvNat? ws "ht").getD nt }
-
-def entry (k : Nat) (l : List Nat) : String := s!"{k}:{nats l}"
 
 def showState (m : M) : String :=
   let s := m.s
@@ -53,15 +51,8 @@ def stepLine (m : M) (line : String) : M × String :=
     | .ok s' => let m' := { m with s := s' }; (m', "ok " ++ showState m')
     | .error _ => (m, "err " ++ showState m)
 
-/-! ### monitor: plain sets of topics and issuers and the plain relation issuer -> topic -/
-
-structure Mon where
-  topics : List Nat
-  issuers : List Nat
-  rel : List (Nat × Nat)     -- (issuer, topic)
-  nt : Nat
-  ni : Nat
-  ht : Nat
+/-! ### monitor: parsing only; the checks are `OZ.RegTopics.Mon.checkCore` (OZ/Model/RegTopicsMon.lean),
+proved sound in OZ/Props/C20bMon.lean -/
 
 def minit (ws : List String) : Mon :=
   let nt := (kvNat? ws "nt").getD 4
@@ -73,82 +64,24 @@ def parseEntries (s : String) : List (Nat × List Nat) :=
     | [k, l] => do pure ((← k.toNat?), natList l)
     | _ => none)
 
-/-- the plain-set transition: `none` = refused, with the reason -/
-def plain (g : Mon) (op : Op) : Except String Mon :=
-  let validTs (entry : String) (ts : List Nat) : Except String Unit :=
-    if ts = [] then .error "empty" else if ts.length > 15 then .error s!"limit.{entry}.topics_arg"
-    else if !nodupB ts then .error "dup_arg" else if !ts.all g.topics.contains then .error "absent_topic" else .ok ()
-  match op with
-  | .addTopic t =>
-    if g.topics.contains t then .error "dup"
-    else if g.topics.length ≥ 15 then .error "limit.add_claim_topic.topics"
-    else .ok { g with topics := g.topics ++ [t] }
-  | .removeTopic t =>
-    if !g.topics.contains t then .error "absent"
-    else .ok { g with topics := g.topics.erase t, rel := g.rel.filter (fun p => p.2 ≠ t) }
-  | .addIssuer i ts => do
-    validTs "add_trusted_issuer" ts
-    if g.issuers.contains i then .error "dup"
-    else if g.issuers.length ≥ 50 then .error "limit.add_trusted_issuer.issuers"
-    else .ok { g with issuers := g.issuers ++ [i], rel := g.rel ++ ts.map (fun t => (i, t)) }
-  | .removeIssuer i =>
-    if !g.issuers.contains i then .error "absent"
-    else .ok { g with issuers := g.issuers.erase i, rel := g.rel.filter (fun p => p.1 ≠ i) }
-  | .update i ts => do
-    validTs "update_issuer_claim_topics" ts
-    if !g.issuers.contains i then .error "absent"
-    else .ok { g with rel := g.rel.filter (fun p => p.1 ≠ i) ++ ts.map (fun t => (i, t)) }
+def parseObs (obs : String) : Obs :=
+  let ws := words obs
+  { ok := ws.head? == some "ok",
+    T := natList (kvS ws "T"),
+    I := natList (kvS ws "I"),
+    TI := parseEntries (kvS ws "TI"),
+    IT := parseEntries (kvS ws "IT"),
+    Mraw := kvS ws "M",
+    M := parseEntries (kvS ws "M"),
+    tr := kvS ws "tr",
+    h := kvS ws "h" }
 
 def check (g : Mon) (opl obs : String) : Mon × Option String :=
-  let ws := words obs
-  let ok := ws.head? == some "ok"
   match parseOp (words opl) with
   | none => (g, some s!"site=topics.parse bad op {opl}")
-  | some op =>
-    let (g2, accept) : Mon × Option String :=
-      match plain g op, ok with
-      | .ok g', true => (g', none)
-      | .error _, false => (g, none)
-      | .ok _, false => (g, some (
-          let near := match op with
-            | .addTopic _ => if g.topics.length = 14 then "limit.add_claim_topic.topics" else "valid"
-            | .addIssuer _ ts => if g.issuers.length = 49 then "limit.add_trusted_issuer.issuers"
-                                 else if ts.length = 15 then "limit.add_trusted_issuer.topics_arg" else "valid"
-            | .update _ ts => if ts.length = 15 then "limit.update_issuer_claim_topics.topics_arg" else "valid"
-            | _ => "valid"
-          refusedSite "topics" near))
-      | .error why, true => (g, some (acceptedSite "topics" why))
-    let T := natList (kvS ws "T")
-    let I := natList (kvS ws "I")
-    let TI := parseEntries (kvS ws "TI")
-    let IT := parseEntries (kvS ws "IT")
-    let Mraw := kvS ws "M"
-    let Mp := parseEntries Mraw
-    let tiChecks := (List.range g2.nt).map (fun t =>
-      let want := (g2.rel.filter (fun p => p.2 == t)).map (·.1)
-      match TI.find? (fun x => x.1 == t) with
-      | some (_, l) => chk (g2.topics.contains t ∧ nodupB l ∧ sameSet l want)
-          s!"site=topics.two_way get_claim_topic_issuers({t}) = {l} but the plain relation gives {want} (topic listed: {g2.topics.contains t})"
-      | none => chk (!g2.topics.contains t) s!"site=topics.two_way get_claim_topic_issuers({t}) fails for a listed topic")
-    let itChecks := (List.range g2.ni).map (fun i =>
-      let want := (g2.rel.filter (fun p => p.1 == i)).map (·.2)
-      match IT.find? (fun x => x.1 == i) with
-      | some (_, l) => chk (g2.issuers.contains i ∧ nodupB l ∧ sameSet l want)
-          s!"site=topics.two_way get_trusted_issuer_claim_topics({i}) = {l} but the plain relation gives {want} (issuer listed: {g2.issuers.contains i})"
-      | none => chk (!g2.issuers.contains i) s!"site=topics.two_way get_trusted_issuer_claim_topics({i}) fails for a listed issuer")
-    let mWant := (sortN g2.topics).map (fun t => (t, (g2.rel.filter (fun p => p.2 == t)).map (·.1)))
-    let mOk := Mraw ≠ "x" ∧ Mp.map (·.1) = mWant.map (·.1) ∧
-      (List.zip Mp mWant).all (fun (a, b) => sameSet a.2 b.2 ∧ nodupB a.2)
-    let trWant := (List.range g2.ni).map g2.issuers.contains
-    let hWant := (List.range g2.ni).flatMap (fun i => (List.range g2.ht).map (fun t =>
-      if g2.issuers.contains i then bit (g2.rel.contains (i, t)) else "x"))
-    let fail := firstFail ([accept,
-      chk (nodupB T ∧ sameSet T g2.topics) s!"site=topics.set get_claim_topics = {T} but the plain set is {g2.topics}",
-      chk (nodupB I ∧ sameSet I g2.issuers) s!"site=topics.set get_trusted_issuers = {I} but the plain set is {g2.issuers}"]
-      ++ tiChecks ++ itChecks ++
-      [chk mOk s!"site=topics.map get_claim_topics_and_issuers = {Mraw} differs from the plain map",
-       chk (kvS ws "tr" = bits trWant) "site=topics.set is_trusted_issuer differs from membership in the plain set",
-       chk (kvS ws "h" = (if hWant.isEmpty then "-" else "".intercalate hWant)) "site=topics.two_way has_claim_topic differs from the plain relation"])
-    (g2, fail)
+  | some op => checkCore g op (parseObs obs)
+
+/-- the monitor state type, as the dispatcher OZ/Drv/C20.lean names it -/
+abbrev MonT := OZ.RegTopics.Mon.Mon
 
 end OZ.Drv.C20.Topics
